@@ -423,7 +423,8 @@ def finish(mod, total, tier, seed, wall, nshards):
     for key, g in new_groups:
         v = g['first']
         if written >= 25:
-            break
+            lines.append(f"  # (not written out) op={v['op']} kind={v['kind']} x{g['count']} detail={json.dumps(v['detail'], default=repr)[:200]}")
+            continue
         # confirm in a fresh interpreter, twice, before it is believed
         st1, out1 = run_snippet(v['snippet'])
         st2, out2 = run_snippet(v['snippet'])
